@@ -586,6 +586,19 @@ impl<'t> Gen<'t> {
             };
             o.push((k.clone(), nv));
         }
+        if depth > 0 && (self.t.pick(100) as u32) < self.cfg.p_surplus {
+            // surplus key (or surplus group) below the top level
+            let k = names.next(self.t);
+            let rich = self.t.coin();
+            let v = if self.t.chance(1, 4) {
+                let k2 = names.next(self.t);
+                let p = self.pieces(&format!("{tag}:{k}.{k2}"), 0, rich);
+                Value::Sub(vec![(k2, Value::Str(p))])
+            } else {
+                Value::Str(self.pieces(&format!("{tag}:{k}"), 0, rich))
+            };
+            o.push((k, v));
+        }
         let perm = self.t.permutation(o.len());
         perm.into_iter().map(|i| o[i].clone()).collect()
     }
@@ -628,7 +641,12 @@ impl<'t> Gen<'t> {
                     let k = names.next(self.t);
                     let rich = self.t.coin();
                     let p = self.pieces(&format!("{tag}:{k}"), 0, rich);
-                    o.push((k, Value::Str(p)));
+                    if self.t.chance(1, 4) {
+                        let k2 = names.next(self.t);
+                        o.push((k, Value::Sub(vec![(k2, Value::Str(p))])));
+                    } else {
+                        o.push((k, Value::Str(p)));
+                    }
                 }
                 files.insert((ns.clone(), l.clone()), o);
             }
@@ -655,7 +673,13 @@ impl<'t> Gen<'t> {
         for round in 0..nfk {
             let ns = ns_list[self.t.pick(ns_list.len())].clone();
             // the new key name
-            let used: Vec<String> = p.file(ns.as_deref(), p.default_locale()).map(|o| o.iter().map(|(k, _)| k.clone()).collect()).unwrap_or_default();
+            // names used at the top level of any locale's file (surplus keys included)
+            let used: Vec<String> = p
+                .files
+                .iter()
+                .filter(|((n, _), _)| *n == ns)
+                .flat_map(|(_, o)| o.iter().map(|(k, _)| k.clone()))
+                .collect();
             let mut name = None;
             let perm = self.t.permutation(KEY_POOL.len());
             for i in perm {
